@@ -7,14 +7,14 @@ WSIM_NOTE = ("Trusted base: the simulator (sim/wsim: one-runner scheduler over r
 DSIM_NOTE = ("Trusted base: the tokio shim (sim/shims/tokio: single-threaded seeded executor, virtual time, in-memory sockets), the octopii stub (sim/shims/octopii: consensus oracle restricted to behaviour Raft allows, simulated RPC; real rpc/message.rs), bincode = serde_json, the wiring of start_node reproduced in sim/dsim/src/world.rs, engine background threads parked. No node crashes. Seeded sampling, not a proof.")
 dsim_checks = {
  "C18": ("exploration", "Three replicas of the real Metadata state machine behind the consensus stub; racing proposers on all nodes issue duplicate/stale/unknown-topic commands and damaged encodings under proposal failure, leader change, apply lag and snapshot catch-up; the statement's invariants are evaluated on every replica after every apply and replicas are compared at the end. The simulation contributes the command sequences a cluster produces; it does not enumerate the bounded space (that would be model checking).", "§6 C18", "deterministic simulation: replicated state machine under a consensus stub, invariants after every apply"),
- "C22": ("exploration", "1-3 nodes of the real data plane over the real engine, concurrent PUT/GET clients on arbitrary nodes, thresholds 1-4, monitor/lease timers on virtual time, consensus and RPC faults while the workload runs, then a fault-free drain; history oracle on executor step numbers (exactly-once, per-producer order, EMPTY only when drained).", "§6 C22", "deterministic simulation: seeded task schedules and faults, history checked for exactly-once ordered delivery"),
- "C23": ("exploration", "Same runs as C22; every engine append is reported by the hook with the node label of the task performing it and checked at that instant against that node's applied metadata; guarded observation hooks give the provenance of the lease check that let the write through (legitimate cached lease vs accepted without lease / lease kept by install / wrong snapshot / no check).", "§6 C23, §15.3", "deterministic simulation: write events checked against the writer's applied metadata"),
+ "C22": ("exploration", "1-3 nodes of the real data plane over the real engine, concurrent PUT/GET clients on arbitrary nodes, thresholds 1-4, monitor/lease timers on virtual time, consensus and RPC faults while the workload runs, then a fault-free drain; history oracle on executor step numbers (exactly-once, per-producer order, EMPTY only when drained); findings carry whether any write to the topic passed an irregular lease check.", "§6 C22, §16.3", "deterministic simulation: seeded task schedules and faults, history checked for exactly-once ordered delivery"),
+ "C23": ("exploration", "Same runs as C22; every engine append is reported by the hook with the node label of the task performing it and checked at that instant against that node's applied metadata; guarded observation hooks give the provenance of the lease check that let the write through (legitimate cached lease refreshed by the request itself vs accepted without lease / lease kept by install / wrong snapshot / not refreshed by the request / no check).", "§6 C23, §15.3, §16.3", "deterministic simulation: write events checked against the writer's applied metadata"),
  "C24": ("exploration", "Byte streams of valid and malformed frames through the real listener/handle_connection over a simulated socket with seeded chunking and short reads; payloads up to the frame limit with multi-byte characters across power-of-two byte offsets; responses matched positionally against a reference framer; PUT/GET payload identity; a panicking connection task is a finding.", "§6 C24, §15.3", "deterministic simulation: seeded byte streams and chunking vs reference framer"),
 }
-OSIM_NOTE = ("Trusted base: type-only shims of openraft/futures/quinn (sim/shims), the simulator's tokio (C20 on the seeded executor, C21 driven by block_on), bincode = serde_json, a 10-line bridge between the two declarations of StateMachineTrait. The vendored engine copy under octopii/src/wal/wal has no I/O hooks: kill points are operation boundaries and the only I/O fault is a full disk (RLIMIT_FSIZE). node.rs cannot be compiled offline as a whole; its three peer-address items are cut out verbatim by build.rs. Seeded sampling, not a proof.")
+OSIM_NOTE = ("Trusted base: type-only shims of openraft/futures/quinn (sim/shims), the simulator's tokio (C20 on the seeded executor, C21 driven by block_on), bincode = serde_json, a 10-line bridge between the two declarations of StateMachineTrait. The vendored engine copy under octopii/src/wal/wal has no I/O hooks: its I/O is intercepted at the libc entry points (pwrite64, fsync, fdatasync, ftruncate64, rename defined by the osim binary, real effect by raw system call), which gives crash points inside operations and torn positional writes; the other I/O fault is a full disk (RLIMIT_FSIZE); io_uring and mmap stores are outside this seam. node.rs cannot be compiled offline as a whole; its three peer-address items are cut out verbatim by build.rs. Seeded sampling, not a proof.")
 osim_checks = {
  "C20": ("exploration", "Seeded metadata command sequences applied in batches as openraft entries through the real MemStateMachine adapter over the real Metadata; 1-3 snapshot builds per history race with the apply batches on the simulator's executor (the entry stream is not always ready); each snapshot is installed into a fresh adapter, which must equal a replica that applied exactly the entries the snapshot claims, and the sender after the remaining commands; state is read through the accessors, not through snapshot(); Metadata snapshot->restore round trips on the same instance.", "§6 C20, §15.3", "deterministic simulation: snapshot builds racing with apply batches, receiver vs replica of the claimed prefix"),
- "C21": ("exploration", "Seeded histories of log-store operations on the real WalLogStore/WriteAheadLog/vendored engine and of peer-address records through the real persistence functions of node.rs (cut out by build.rs), a disk-full fault (RLIMIT_FSIZE) around appends followed by retries, with 1-4 reopen events (fresh process each, clean drop or kill at an operation boundary); a BTreeMap model of acknowledged operations is compared with the reopened store and address book.", "§6 C21, §15.3", "deterministic simulation: restart histories with disk-full faults vs model of acknowledged operations"),
+ "C21": ("exploration", "Seeded histories of log-store operations on the real WalLogStore/WriteAheadLog/vendored engine and of peer-address records through the real persistence functions of node.rs (cut out by build.rs), a disk-full fault (RLIMIT_FSIZE) around appends followed by retries, with 1-4 reopen events (fresh process each: clean drop, kill at an operation boundary, or a process crash before the k-th intercepted I/O call of its operations or of the reopen itself - positional write incl. torn prefix, fsync, truncate, rename; the harness binary defines these libc entry points); histories beyond the recovery reader's batch caps (2000 records / 10 MiB); a BTreeMap model of acknowledged operations is compared with the reopened store and address book, the operation in flight at a crash may be reflected or not.", "§6 C21, §15.3, §16.2", "deterministic simulation: restart histories with disk-full faults and process crashes at intercepted I/O calls vs model of acknowledged operations"),
 }
 checks = {
  "C01": ("exploration", "Seeded operation sequences on the real engine under the simulator, compared op by op with a reference log+cursor model (both read APIs, all budgets, sizes 0..multi-block, both backends, both consistency modes, both geometries). Tests sample a handful of sequences; this samples thousands per minute with boundary-biased sizes and budgets.", "§4 C01", "deterministic simulation: seeded op sequences vs reference model"),
@@ -23,9 +23,9 @@ checks = {
  "C04": ("fault_enumeration", "Three profiles by seed: every rejection cause interleaved with successful appends; one injected I/O failure per run at sampled I/O events of appends (failed create/set_len/fsync/msync/dir-fsync, failed io_uring submission, failed or short completion, failed pwrite), in 60% of the variants followed by the client's retry of the batch, a prefix of it or its first entry, then the rest of the workload and a restart; concurrent readers polling during batches. A failed operation must leave the model untouched now and after restart; a run that hangs after the injected failure is a violation.", "§4 C04, §14.2, §15.3", "deterministic simulation: rejected operations, injected I/O failures at enumerated events, concurrent readers"),
  "C06": ("exploration", "2-5 incarnations (fresh processes) plus same-process reopen, wall clock moving forward or backward between runs, rejected operations and multi-block payloads interleaved; the model has no restart operation.", "§4 C06", "deterministic simulation: restart histories with simulated wall clock vs restart-free model"),
  "C05": ("exploration", "2-4 real client threads on shared topics, one runnable at a time, every lock/atomic/channel/I-O point a seeded scheduling decision (random walk, sticky, PCT); the physical log order comes from an independent pass (fresh process, cursor index removed); exactly-once, producer order, batch contiguity, per-read monotonicity and real-time order between reads (simulator step numbers) are checked on the history.", "§4 C05", "deterministic simulation: seeded thread schedules, history checked against physical log order"),
- "C07": ("fault_enumeration", "Producer workloads are numbered by a fault-free pass, then re-run with the process terminated before sampled/enumerated I/O events (plus torn mmap stores and arbitrary completed subsets of io_uring batches; with several client threads the crashing thread is first held back by a slow-thread fault in half of the variants, and rotation-race workloads hand out blocks of different topics back to back); optionally the recovered process keeps appending and ends without a clean close; a fresh process must recover every acknowledged entry in order, extras only from operations in flight.", "§4 C07, §14.2", "deterministic simulation: crash at enumerated I/O events, recovery read-back"),
+ "C07": ("fault_enumeration", "Producer workloads are numbered by a fault-free pass, then re-run with the process terminated before sampled/enumerated I/O events (plus torn mmap stores and arbitrary completed subsets of io_uring batches; with several client threads the crashing thread is first held back by a slow-thread fault in half of the variants, and rotation-race workloads hand out blocks of different topics back to back); optionally the recovered process keeps appending and ends without a clean close, and in 30% of those variants it is itself ended by a second crash at a seeded I/O event of its recovery or of its operations (double crash); a fresh process must recover every acknowledged entry in order, extras only from operations in flight.", "§4 C07, §14.2, §16.4", "deterministic simulation: crash at enumerated I/O events (single and double crash), recovery read-back"),
  "C08": ("fault_enumeration", "One batch in flight; crash before each of its I/O events, after sampled subsets of its io_uring writes, between and inside the sequential stores of the mmap path; recovered topic must contain all or none of the batch.", "§4 C08", "deterministic simulation: crash inside a batch, subset enumeration of io_uring completions"),
- "C09": ("fault_enumeration", "Appends and consuming reads (Strict and AtLeastOnce{1..8}), 1-2 working incarnations, optionally a post-crash working incarnation with producers and consumers, and rotation-race workloads (one producer-and-consumer thread per topic, slow-thread + torn-store faults); crash before every sampled I/O event incl. the three events of an index persist; the resume position is judged at every restart boundary against the consumer's acknowledgement log.", "§4 C09, §15.3", "deterministic simulation: crash at enumerated I/O events, resume position vs ack log"),
+ "C09": ("fault_enumeration", "Appends and consuming reads (Strict and AtLeastOnce{1..8}), 1-2 working incarnations, optionally a post-crash working incarnation with producers and consumers, and rotation-race workloads (one producer-and-consumer thread per topic, slow-thread + torn-store faults); crash before every sampled I/O event incl. the three events of an index persist, in 30% of the post-crash variants followed by a second crash inside the recovering incarnation; the resume position is judged at every restart boundary against the consumer's acknowledgement log.", "§4 C09, §15.3, §16.4", "deterministic simulation: crash at enumerated I/O events (single and double crash), resume position vs ack log"),
  "C10": ("fault_enumeration", "SyncEach workloads recorded as a byte-accurate I/O trace; a model file system decides durability (O_SYNC, fsync/msync per file, directory fsync for namespace operations); sampled trace prefixes x {nothing, everything, half} of the not-yet-durable items are materialised and opened in a fresh process.", "§4 C10", "deterministic simulation: recorded I/O trace replayed into a power-loss model, materialised cuts"),
  "C11": ("fault_enumeration", "Engine-produced directories (up to six topics, so that the upper blocks of a file are in use) receive 1-8 seeded mutations: bit flips in length bytes / rkyv metadata / payload / index / marker file, header fields overwritten with boundary values (0, 1, block+-1, multiples of the block size, file size - block offset +-1, 2^32, 2^64-1) at aligned and unaligned offsets, truncation, zeroing, garbage, stray and tmp files, directories; a fresh process opens and reads with every API; no signal, panic, deadlock or non-termination, and every payload returned was appended to that topic.", "§4 C11, §15.3", "deterministic simulation: seeded stored-byte faults, fresh-process open and read-back"),
  "C12": ("exploration", "Scaled geometry so whole files fill and drain within a run; the reclaimer is a simulated thread ticking every simulated millisecond; at every remove_file event the simulator scans the file independently of the engine and every acknowledged entry found must already have been consumed; model no-skip rule for all reads, also after restarts.", "§4 C12", "deterministic simulation: scheduler-controlled reclaimer, independent file scan at remove events"),
